@@ -76,6 +76,7 @@ static Step make_step(const std::string &op, Rng &r, bool utils_keys = false) {
     if (op == "pop") return mk(op, {R(r), R(r), R(r), R(r), R(r), R(r)});
     if (op == "pcorrupt") return mk(op, {R(r), R(r), R(r)});
     if (op == "patch_gen" || op == "merge_apply" || op == "merge_gen") return mk(op, {R(r), R(r)});
+    if (op == "utils_ci") return mk(op, {R(r), R(r), R(r)});
     if (op == "ptr_find") return mk(op, {R(r), R(r)});
     if (op == "compare") return mk(op, {R(r), R(r), R(r), R(r), R(r)});
     if (op == "minify") return mk(op, {R(r), R(r)});
@@ -150,7 +151,7 @@ Plan gen_plan(const std::string &prop, uint64_t seed, int64_t run) {
         common_knobs(p, r, 3);
         p.knobs["hooks"] = 0;
         int epochs = (int)r.range(2, 4);
-        auto mix = swarm(cat({CREATE, EDIT, {{"parse", 6}, {"print", 6}, {"dup", 3}, {"delete", 3}, {"sort", 2}, {"ptr_find", 3}, {"patch_gen", 3}, {"merge_gen", 2}, {"merge_apply", 2}, {"pop", 4}, {"patch_apply", 2}, {"add_ref_arr", 1}, {"add_obj_cs", 1}, {"compare", 1}}}), r);
+        auto mix = swarm(cat({CREATE, EDIT, {{"parse", 6}, {"print", 6}, {"dup", 3}, {"delete", 3}, {"sort", 2}, {"ptr_find", 3}, {"patch_gen", 3}, {"merge_gen", 2}, {"merge_apply", 2}, {"pop", 4}, {"patch_apply", 2}, {"add_ref_arr", 1}, {"add_obj_cs", 1}, {"compare", 1}, {"utils_ci", 3}}}), r);
         if (r.chance(1, 3)) { p.knobs["faults"] = 1; mix.push_back({"arm", 8}); mix.push_back({"print", 8}); mix.push_back({"parse", 4}); }
         for (int e = 0; e < epochs; e++) {
             p.steps.push_back(make_step("hooks", r));
